@@ -306,6 +306,10 @@ func checkC07(p *Prog, res *Result, tier string) {
 						if _, isPhi := ch.up(cf.X, cf.level).(*ssa.Phi); isPhi {
 							prevPos = true
 						}
+						// the loop-carried previous record kept in a struct variable: a field that the loop assigns
+						if cell, fld, ok := ch.structCellField(cf.X, cf.level); ok && len(cellFieldStores(cell, fld)) > 0 {
+							prevPos = true
+						}
 					}
 				}
 				if sameKey && prevPos {
@@ -367,7 +371,30 @@ func checkC07(p *Prog, res *Result, tier string) {
 				continue
 			}
 			c2 := fmt.Sprintf("%s: %s hands the record's user key to the skipped-key test", funcName(run), tag)
-			switch userKeyProvenance(r, ch.up(keyArg, cf.level), 0) {
+			prov := userKeyProvenance(r, ch.up(keyArg, cf.level), 0)
+			upV, upLv := ch.upLevel(keyArg, cf.level)
+			if cell, fld, ok := ch.structCellField(upV, upLv); ok && prov == 0 {
+				// a field of the loop-carried previous-record variable: every value the loop assigns to it
+				prov = 1
+				vals := cellFieldStores(cell, fld)
+				if len(vals) == 0 {
+					prov = 0
+				}
+				for _, sv := range vals {
+					if k, isC := sv.(*ssa.Const); isC && k.IsNil() {
+						continue
+					}
+					switch userKeyProvenance(r, sv, 0) {
+					case -1:
+						prov = -1
+					case 0:
+						if prov == 1 {
+							prov = 0
+						}
+					}
+				}
+			}
+			switch prov {
 			case 1:
 				res.ok("C07-R4", c2, pos, "decoded user key of the current / previous record")
 			case -1:
